@@ -15,7 +15,7 @@ import r_round  # noqa: E402
 from r_asm import objects, op_of  # noqa: E402
 
 # integer-class argument registers
-ARGREGS = {"unix": ["rdi", "rsi", "rdx", "rcx", "r8", "r9"], "windows_gnu": ["rcx", "rdx", "r8", "r9"]}
+ARGREGS = {"unix": ["rdi", "rsi", "rdx", "rcx", "r8", "r9"], "windows_gnu": ["rcx", "rdx", "r8", "r9"], "windows_msvc": ["rcx", "rdx", "r8", "r9"]}
 PROTOS = {
     "compress_in_place": [("cv", "ptr"), ("block", "ptr"), ("block_len", "u8"), ("counter", "u64"), ("flags", "u8")],
     "compress_xof": [("cv", "ptr"), ("block", "ptr"), ("block_len", "u8"), ("counter", "u64"), ("flags", "u8"), ("out", "ptr")],
@@ -145,7 +145,7 @@ def rule_R1asm_single(ctx):
             if op in ("compress_in_place", "compress_xof"):
                 n += 1
                 check_single_block(ctx, o, fname, op)
-    ctx.floor("assembly single-block kernels evaluated", n, 12)
+    ctx.floor("assembly single-block kernels evaluated", n, 18)
 
 
 def leaf_set(T, t, memo=None):
@@ -414,7 +414,7 @@ def rule_R1asm_hash(ctx):
             if op_of(fname) == "hash_many":
                 for inc in (1, 0):
                     n += check_hash_many(ctx, o, fname, inc)
-    ctx.floor("assembly hash_many stages decided (both increment modes)", n, 60)
+    ctx.floor("assembly hash_many stages decided (both increment modes)", n, 90)
 
 
 def rule_R1asm_xof(ctx):
@@ -694,7 +694,7 @@ class ManyAnalysis:
             if i < len(regs):
                 M.gpr[regs[i]] = g
             else:
-                off = 8 + 8 * i if o.flavour == "windows_gnu" else 8 + 8 * (i - len(regs))
+                off = 8 + 8 * i if o.flavour != "unix" else 8 + 8 * (i - len(regs))
                 if small or g.is_const():
                     M.frame[(s0, off)] = M.lo32(g)
                 else:
